@@ -29,3 +29,12 @@ PROPS['C06'] = {
     ],
     'probes': ['faults_fired', 'runs_reaching_8_rects', 'pair_coincidences_nonempty', 'convert', 'translate', 'init_from_image'],
 }
+
+MANIFEST_TEXT = {}
+MANIFEST_TEXT['C06'] = {
+    'technique': 'deterministic simulation: seeded operation histories with allocation-fault events against the real region code; canonical-form invariants + point-set equality oracle after every step',
+    'level_text': ("seeded search over operation histories (the dimension the property quantifies over besides inputs): every step of every history is "
+                   "checked against the canonical-form invariants and equal() against exact point-set equality; inputs are sampled, so a clean batch is evidence, not proof"),
+    'level_note': "trusts the harness's own 60-line point-set comparison and canonical-form checker; coordinates mostly on a 40x40 grid plus excursions to the 16/32-bit limits",
+    'design_ref': 'DESIGN.md section 4, C06',
+}
